@@ -260,6 +260,22 @@ theorem no_aliased_mutation :
   · decide +kernel
   · decide +kernel
 
+/-- **The challenges hash exactly the bound fields, and the verifying functions are the ones modelled**: the inputs of the two
+Fiat–Shamir oracles (`randomOracleForBlindingProof`: every `dᵢ fᵢ aᵢ bᵢ`, `s`, `cm`, `g`, `g0`, `h`, `u`;
+`randomOracleForPoKofSignature`: every `Yᵢ`, `X`, `g2`, `Γ`, `Φ`, `ν`, `h^ε`, `κ`), regenerated from the source, are the
+committed ones, as are the statements of every verifying / signing function. (`altered_*_one_challenge` and
+`*_commitments_determined` above are what this binding is needed for: the equations alone accept a response shifted
+together with its commitment — the harness runs exactly those shifts against the real verifiers.) -/
+theorem oracle_inputs_as_modelled :
+    TSSVerif.Gen.Ps.roBlinding = TSSVerif.Model.PsEq.roBlinding ∧ TSSVerif.Gen.Ps.roPoK = TSSVerif.Model.PsEq.roPoK ∧
+    TSSVerif.Gen.Ps.verifyBlinding = TSSVerif.Model.PsEq.verifyBlinding ∧
+    TSSVerif.Gen.Ps.verifyPoKForm = TSSVerif.Model.PsEq.verifyPoKForm ∧
+    TSSVerif.Gen.Ps.checkCommitmentForm = TSSVerif.Model.PsEq.checkCommitmentForm ∧
+    TSSVerif.Gen.Ps.verifySigPoK = TSSVerif.Model.PsEq.verifySigPoK ∧
+    TSSVerif.Gen.Ps.signBlind = TSSVerif.Model.PsEq.signBlind ∧ TSSVerif.Gen.Ps.unblind = TSSVerif.Model.PsEq.unblind ∧
+    TSSVerif.Gen.Ps.provePoK = TSSVerif.Model.PsEq.provePoK ∧ TSSVerif.Gen.Ps.proveBlinding = TSSVerif.Model.PsEq.proveBlinding := by
+  decide +kernel
+
 /-- the BLS functions are the ones modelled -/
 theorem bls_equations_as_modelled :
     TSSVerif.Gen.Ps.blsSign = TSSVerif.Model.PsEq.blsSign ∧ TSSVerif.Gen.Ps.blsVerify = TSSVerif.Model.PsEq.blsVerify ∧
